@@ -244,6 +244,28 @@ def loop_input_valuefrom_in_repeated_subworkflow(doc) -> list[str]:
     return found
 
 
+def merge_flattened_of_crossproduct(doc) -> list[str]:
+    """a merge_flattened sink one of whose sources is (or comes from a sub-workflow containing) a cross-product scatter"""
+    found = []
+    for path, wf in _workflows(doc):
+        xp = set()
+        for sid, st in wf.get("steps", {}).items():
+            run = st.get("run")
+            inner = isinstance(run, dict) and run.get("class") == "Workflow" and any(
+                s2.get("scatterMethod") in ("flat_crossproduct", "nested_crossproduct")
+                for _, w2 in _workflows(run) for s2 in w2.get("steps", {}).values())
+            if st.get("scatterMethod") in ("flat_crossproduct", "nested_crossproduct") or inner:
+                xp.add(sid)
+        sinks = [(f"{path}/{sid}/{n}", _entry(e), "source") for sid, st in wf.get("steps", {}).items()
+                 for n, e in st.get("in", {}).items()]
+        sinks += [(f"{path}#{n}", o if isinstance(o, dict) else {}, "outputSource") for n, o in wf.get("outputs", {}).items()]
+        for where, ent, key in sinks:
+            if ent.get("linkMerge") == "merge_flattened" and any(
+                    "/" in x and x.split("/")[0] in xp for x in _aslist(ent.get(key))):
+                found.append(where)
+    return found
+
+
 def conditional_scatter_steps(doc) -> list[str]:
     return [f"{path}/{sid}" for path, wf in _workflows(doc) for sid, st in wf.get("steps", {}).items()
             if "scatter" in st and "when" in st]
@@ -259,6 +281,8 @@ def kind_for(pid: str, case: dict, symptom: str, detail: str) -> str:
             return f"{pid}:loop-after-all-false-conditional-hangs"
         if symptom in ("sf-fails-only", "sf-hangs") and unused_steps(doc):
             return f"{pid}:unused-step-cancelled"
+        if symptom == "output-mismatch" and merge_flattened_of_crossproduct(doc):
+            return f"{pid}:merge-flattened-of-crossproduct-array-reordered"
         if symptom == "output-mismatch" and duplicate_sources(doc):
             return f"{pid}:duplicate-source-collapsed"
         if symptom == "output-mismatch" and outputs_sharing_a_source(doc):
@@ -447,6 +471,19 @@ def known_shape_cases(seed: int = 1) -> list[dict]:
           "outputs": {"o": {"type": _arr("int"), "outputSource": "w/o"}},
           "steps": {"w": {"run": vc_inner, "in": {"k": {"source": "ks"}, "x": {"source": "x"}}, "out": ["o"], "scatter": "k"}}}
     add("valueFrom-with-constant-input-in-repeated-subworkflow", vc, {"ks": [1, 2, a], "x": "abc"})
+
+    # --- merge_flattened of the output array of a flat_crossproduct scatter
+    mf = {"class": "Workflow", "inputs": {"xs": {"type": _arr("int")}, "ys": {"type": _arr("int")}},
+          "outputs": {"o": {"type": _arr("int"), "outputSource": "t/o"}},
+          "steps": {"s": {"run": ets["add"]["doc"], "in": {"a": {"source": "xs"}, "b": {"source": "ys"}}, "out": ["o"],
+                          "scatter": ["a", "b"], "scatterMethod": "flat_crossproduct"},
+                    "t": {"run": rev, "in": {"xs": {"source": ["s/o", "ys"], "linkMerge": "merge_flattened"}}, "out": ["o"]}}}
+    add("merge-flattened-of-crossproduct-array", mf, {"xs": [1, 2], "ys": [10, 20, a]})
+    v = copy.deepcopy(mf)
+    v["outputs"]["o"] = {"type": _arr("int"), "outputSource": ["s/o", "s2/o"], "linkMerge": "merge_flattened"}
+    v["steps"]["s2"] = {"run": inc, "in": {"a": {"source": "xs"}}, "out": ["o"], "scatter": "a"}
+    del v["steps"]["t"]
+    add("merge-flattened-of-crossproduct-array", v, {"xs": [1, 2, 3], "ys": [10, a]})
 
     # --- nested_crossproduct with an empty scatter array
     nc = {"class": "Workflow", "inputs": {"xs": {"type": _arr("int")}, "ys": {"type": _arr("int")}},
